@@ -493,7 +493,7 @@ def _lmj_slice():
     except Exception:
         ftext = None
     if ftext is None:
-        ftext = "def fisher(k):\n" + "".join(f"    {v} = unrecognised(k)\n" for v in ('wc', 'wb', 'nc', 'nb', 'jc', 'jb', 'sig'))
+        ftext = "def fisher(k):\n" + "".join(f"    {v} = unrecognised(k)\n" for v in ('wc', 'wb', 'nc', 'nb', 'jc', 'jb', 'sig', 'msk', 'fmk'))
     text = text + "\n\n" + ftext
     d = os.path.join(tempfile.gettempdir(), 'verif-C04-slices')
     os.makedirs(d, exist_ok=True)
@@ -513,6 +513,8 @@ def _lmj_slice():
 #                                                                             (np.transpose / .T / .dot / np.dot / @
 #                                                                             are normalised; (XY)^T = Y^T X^T)
 #     onesigma = np.sqrt(np.diag(inv(covar)))                               -> sig = 1 in both branches
+# and the pixel selection `mask = np.where(<pred>(data))` of covar_errors (msk) and of do_lmfit (fmk):
+#     1 = np.isfinite(data), 2 = ~np.isnan(data)  (round 8)
 # Slice `fisher(k)`: wc/wb = letter k of the word of the C / B branch (0 beyond its length), nc/nb the lengths.
 # Any other statement in those bodies (except `log.<level>(...)` calls) is unrecognised -> UNTRANSLATABLE.
 # ---------------------------------------------------------------------------------------------------------
@@ -593,12 +595,35 @@ def _fisher_branch(body, fn_params):
     return code, word
 
 
+def _mask_kind(fn, data):
+    """which pixels of the image `data` enter: the single top-level `mask = np.where(<pred>)` of the function.
+       1 = np.isfinite(data)   2 = ~np.isnan(data) / np.logical_not(np.isnan(data))   None = anything else"""
+    found = [st for st in fn.body if isinstance(st, ast.Assign) and len(st.targets) == 1
+             and _is_name(st.targets[0], 'mask')]
+    if len(found) != 1 or not _np_call(found[0].value, ('where',)):
+        return None
+    pred = found[0].value.args[0]
+    if _np_call(pred, ('isfinite',)) and _is_name(pred.args[0], data):
+        return 1
+    inner = None
+    if isinstance(pred, ast.UnaryOp) and isinstance(pred.op, ast.Invert):
+        inner = pred.operand
+    elif _np_call(pred, ('logical_not',)):
+        inner = pred.args[0]
+    if inner is not None and _np_call(inner, ('isnan',)) and _is_name(inner.args[0], data):
+        return 2
+    return None
+
+
 def _fisher_slice_text(tree):
     fn = [n for n in tree.body if isinstance(n, ast.FunctionDef) and n.name == 'covar_errors'][0]
     params = [a.arg for a in fn.args.args]
     if 'C' not in params or 'B' not in params or 'errs' not in params:
         return None
-    if not any(isinstance(st, ast.Assign) and ast.unparse(st) == f'mask = np.where(np.isfinite({params[1]}))' for st in fn.body):
+    msk = _mask_kind(fn, params[1])
+    dl = [n for n in tree.body if isinstance(n, ast.FunctionDef) and n.name == 'do_lmfit']
+    fmk = _mask_kind(dl[0], [a.arg for a in dl[0].args.args][0]) if dl else None
+    if msk is None or fmk is None:
         return None
     branches = {}
     for st in fn.body:
@@ -616,7 +641,7 @@ def _fisher_slice_text(tree):
     out = "def fisher(k):\n    wc = 0\n    wb = 0\n"
     out += "".join(f"    if k == {i}:\n        wc = {c}\n" for i, c in enumerate(wc))
     out += "".join(f"    if k == {i}:\n        wb = {c}\n" for i, c in enumerate(wb))
-    out += f"    nc = {len(wc)}\n    nb = {len(wb)}\n    jc = {jc}\n    jb = {jb}\n    sig = 1\n"
+    out += f"    nc = {len(wc)}\n    nb = {len(wb)}\n    jc = {jc}\n    jb = {jb}\n    sig = 1\n    msk = {msk}\n    fmk = {fmk}\n"
     return out
 
 
@@ -656,9 +681,10 @@ TARGETS = [
          all_params=['k']),
     dict(file=_S, func='fisher', mode='int', params={'k': 'N'},
          outputs=[('wc', 'fisWordC'), ('wb', 'fisWordB'), ('nc', 'fisLenC'), ('nb', 'fisLenB'), ('jc', 'fisJacC'),
-                  ('jb', 'fisJacB'), ('sig', 'fisSigma')],
+                  ('jb', 'fisJacB'), ('sig', 'fisSigma'), ('msk', 'fisMask'), ('fmk', 'fitMask')],
          fallback={n: f'def {n} (k : Nat) : Nat := Aegean.Model.C04.{n}Hand k'
-                   for n in ['fisWordC', 'fisWordB', 'fisLenC', 'fisLenB', 'fisJacC', 'fisJacB', 'fisSigma']},
+                   for n in ['fisWordC', 'fisWordB', 'fisLenC', 'fisLenB', 'fisJacC', 'fisJacB', 'fisSigma', 'fisMask',
+                             'fitMask']},
          all_params=['k']),
     # OBSERVATION ONLY (not part of the C04 verdict: the hessian is not handed to the optimiser; it feeds
     # RB_bias).  The 21 upper-triangle second-derivative expressions of `fitting.hessian`, named h_P_Q.
